@@ -25,7 +25,8 @@ Record adv := {
   a_refresh : bool;
   a_enhanced : bool;
   a_paths_limit : list (family * Z);  (* every (family, limit) tuple of every PATHS-LIMIT instance *)
-  a_multisession : bool }.            (* draft-ietf-idr-bgp-multisession capability present *)
+  a_multisession : bool;              (* draft-ietf-idr-bgp-multisession capability present *)
+  a_ms_ids : list Z }.                (* the session identifier capability codes it lists (all instances) *)
 
 Inductive refresh_kind := RefreshAbsent | RefreshNormal | RefreshEnhanced.
 
@@ -102,7 +103,11 @@ Definition as_consistent (a : adv) : Prop :=
 
 (* draft-ietf-idr-bgp-multisession-07 s.6: a speaker that requires session grouping refuses a peer
    without the capability with "Grouping Required" (2/9); when both have it the sessions must be grouped
-   on the same families, else "Grouping Conflict" (2/8).  The group is the list of families (each once). *)
+   on the same identifiers (none listed means MULTIPROTOCOL, code 1) and the same families, else
+   "Grouping Conflict" (2/8).  The group is the list of families (each once). *)
+Definition session_ids (a : adv) : list Z := match a_ms_ids a with [] => [1] | l => l end.
+Definition same_set (a b : list Z) : bool :=
+  forallb (fun x => existsb (Z.eqb x) b) a && forallb (fun x => existsb (Z.eqb x) a) b.
 Fixpoint same_families (a b : list family) : bool :=
   match a, b with
   | [], [] => true
@@ -111,7 +116,8 @@ Fixpoint same_families (a b : list family) : bool :=
 Definition ms_faults (ours theirs : adv) : list (Z * Z) :=
   if a_multisession ours then
     if a_multisession theirs then
-      (if same_families (a_mp ours) (common same_family [] (a_mp theirs) (a_mp theirs)) then [] else [(2, 8)])
+      (if same_set (session_ids ours) (session_ids theirs)
+          && same_families (a_mp ours) (common same_family [] (a_mp theirs) (a_mp theirs)) then [] else [(2, 8)])
     else [(2, 9)]
   else [].
 
